@@ -140,9 +140,36 @@ def monitor_convergence(ck, sc, r, quiet):
     if members != sorted(live):
         viol("after the quiet period the latest generation does not consist of exactly the live members",
              {"generation": last["generation"], "members": members, "live": sorted(live)})
-    if last["t"] > t_stop_first - quiet / 2:
-        viol("a rebalance still occurred in the second half of the quiet period",
-             {"last_join_complete": last["t"], "quiet_end": t_stop_first})
+    # "once the environment is quiet ... no further rebalance occurs": the environment's last action Q is
+    # the latest of: an injected fault, a start/stop/kill/subscribe call, a cluster event, and the session
+    # expiry of a member id no live client holds any more (a killed client's id, or an id orphaned by a lost
+    # reply / generation reset - the delayed consequence of an earlier fault).  A rebalance that completes
+    # more than SETTLE seconds after Q is the members' own doing.
+    SETTLE = 5.0
+    killed = {e["c"]: e["t"] for e in r["trace"] if e["ev"] == "kill"}
+    cur = {}
+    q_t = 0.0
+    for e in r["trace"]:
+        if e["t"] >= t_stop_first:
+            break
+        ev = e["ev"]
+        if ev == "member_id_assigned":
+            cur[e["client"]] = e["member"]
+        elif ev == "request" and e.get("fault"):
+            q_t = max(q_t, e["t"] + (e["fault"].get("delay") or 0.0))
+        elif ev in ("start_call", "start_ret", "stop_call", "kill", "subscribe", "cluster_event", "coordinator_move",
+                    "leave_request"):
+            q_t = max(q_t, e["t"])
+        elif ev in ("session_expired", "member_dropped_at_rebalance_timeout"):
+            cl = mc.get(e["member"])
+            if cl is None or cl in killed or cur.get(cl) != e["member"] or cl not in live:
+                q_t = max(q_t, e["t"])
+    if t_stop_first - q_t >= SETTLE + 1.0:
+        if last["t"] > q_t + SETTLE:
+            viol("a rebalance still occurred after the environment had been quiet for %.0f s" % SETTLE,
+                 {"last_join_complete": last["t"], "environment_quiet_since": q_t, "quiet_end": t_stop_first})
+    else:
+        ck.extra["no_rebalance_clause_inconclusive"] = ck.extra.get("no_rebalance_clause_inconclusive", 0) + 1
     h = [x for x in g["history"] if x["generation"] == last["generation"]]
     if h and h[0]["assignments"] is not None:
         owned = {tuple(tp) for a in h[0]["assignments"].values() for tp in a}
